@@ -86,5 +86,7 @@ Definition anchored_items : list string := [
   "lessthan::ConstraintData";
   "constants::inventory"; "constants::Curve"; "constants::Curve::prime"; "constants::Curve::from_str";
   "constants::UsefulConstants"; "constants::UsefulConstants::new"; "constants::UsefulConstants::curve";
-  "constants::UsefulConstants::prime"; "constants::UsefulConstants::prime_size"
+  "constants::UsefulConstants::prime"; "constants::UsefulConstants::prime_size";
+  (* second audit: where the default of `--curve` comes from *)
+  "cli::Cli::curve"; "config::DEFAULT_CURVE"
 ]%string.
